@@ -11,7 +11,7 @@ impl Sl {
     pub open spec fn start(&self) -> int { self.off as int }
     pub open spec fn end(&self) -> int { self.off + self.len * self.stride }
     // a reference is valid only if its extent fits the address space
-    pub open spec fn valid(&self) -> bool { self.end() <= usize::MAX }
+    pub open spec fn valid(&self) -> bool { self.end() <= usize::MAX && self.len * self.stride * size_of_t() <= isize::MAX && (self.stride == 1 ==> self.len * size_of_t() <= isize::MAX) }
     pub fn len(&self) -> (r: usize) ensures r == self.len { self.len }
     pub fn is_empty(&self) -> (r: bool) ensures r == (self.len == 0) { self.len == 0 }
     // slice.as_ptr() / as_mut_ptr() / `self as *const Self`: provenance is the whole referent
@@ -29,10 +29,22 @@ impl Sl {
 // NonNull::dangling().as_ref() / as_mut(): a well-aligned address that is NOT derived from any reference in scope (nothing is known about it)
 #[verifier::external_body]
 pub fn dangling_ref() -> (s: Sl) { unimplemented!() }
-// mem::size_of::<T>(): some fixed size, possibly zero
+// Byte sizes (rule R-bytes).  mem::size_of::<T>() is some fixed size, POSSIBLY ZERO; align_of::<T>() is at least 1.
+// By C01 a GenericArray<T, N> occupies exactly N * size_of::<T>() bytes; no Rust object exceeds isize::MAX bytes, so the byte
+// size of an array type and of a valid slice fits a usize (axioms of the language, stated as contracts of these primitives).
 pub uninterp spec fn size_of_t() -> usize;
+pub uninterp spec fn align_of_t() -> usize;
 #[verifier::external_body]
 pub fn size_of_elem() -> (r: usize) ensures r == size_of_t() { unimplemented!() }
+#[verifier::external_body]
+pub fn align_of_elem() -> (r: usize) ensures r == align_of_t(), r >= 1 { unimplemented!() }
+#[verifier::external_body]
+pub fn size_of_array<N: ArrayLength>() -> (r: usize) ensures r as int == N::n() * size_of_t() { unimplemented!() }
+impl Sl {
+    // mem::size_of_val(slice)
+    #[verifier::external_body]
+    pub fn size_of_val(&self) -> (r: usize) ensures r as int == self.len * self.stride * size_of_t() { unimplemented!() }
+}
 impl Ptr {
     // `p as *const X`: same address and provenance, the pointee now spans `stride` elements
     #[verifier::external_body]
